@@ -124,9 +124,16 @@ pub struct Effects {
 
 impl World {
     pub async fn new(n: usize, root: &Path) -> Result<World, Fail> {
+        Self::new_with(n, root, |_, c| c).await
+    }
+
+    /// like `new`, with a hook to adjust the configuration of each node
+    pub async fn new_with(n: usize, root: &Path, adjust: impl Fn(usize, klukai_types::config::Config) -> klukai_types::config::Config) -> Result<World, Fail> {
         let mut nodes = vec![];
         for i in 0..n {
-            nodes.push(SimNode::new(i, root.join(format!("n{i}"))).await.map_err(infra)?);
+            let dir = root.join(format!("n{i}"));
+            let conf = adjust(i, sim::node_config(&dir));
+            nodes.push(SimNode::with_config(i, dir, conf).await.map_err(infra)?);
         }
         let mut actor_idx = BTreeMap::new();
         for (i, nd) in nodes.iter().enumerate() {
@@ -164,7 +171,7 @@ impl World {
         self.nodes[i].actor()
     }
 
-    fn note_delivery(&mut self, dst: usize, origin: usize, c: &Changeset, supplier: usize) {
+    pub fn note_delivery(&mut self, dst: usize, origin: usize, c: &Changeset, supplier: usize) {
         if let Changeset::Full { version, seqs, last_seq, .. } = c {
             if !(seqs.start().0 == 0 && seqs.end() == last_seq) {
                 self.stats.partial_deliveries += 1;
@@ -673,6 +680,160 @@ impl World {
             let key = (c.table.clone(), c.pk.clone(), c.cid.clone());
             let ok = self.written.get(&key).is_some_and(|s| s.contains(&c.val)) || matches!(c.val.as_str(), "t" | "i0" | "NULL");
             ensure!(ok, "no-value-from-nowhere", "node {node} shows {}.{} pk {} = {} which no acknowledged statement wrote (written: {:?})", c.table, c.cid, hex::encode(&c.pk), c.val, self.written.get(&key));
+        }
+        Ok(())
+    }
+
+    /// live changes of (origin, version) on `node`, straight from its cr-sqlite tables
+    pub async fn live_rows(&self, node: usize, origin: usize, v: u64) -> Result<Vec<Change>, Fail> {
+        let conn = self.nodes[node].agent.pool().read().await.map_err(|e| Fail::infra(e.to_string()))?;
+        let actor = self.actor(origin);
+        tokio::task::block_in_place(|| {
+            let mut st = conn
+                .prepare_cached(r#"SELECT "table", pk, cid, val, col_version, db_version, seq, site_id, cl FROM crsql_changes WHERE site_id = ? AND db_version = ? ORDER BY seq ASC"#)
+                .map_err(|e| Fail::infra(e.to_string()))?;
+            let rows = st.query_map(rusqlite::params![actor, v], klukai_types::change::row_to_change).and_then(|r| r.collect::<rusqlite::Result<Vec<_>>>()).map_err(|e| Fail::infra(e.to_string()))?;
+            Ok(rows)
+        })
+    }
+
+    /// C05: let `server` answer one need about `origin` through the real process_sync / handle_need and
+    /// compare the answer with what the server holds (harness model + the server's own crsql_changes)
+    pub async fn check_serve(&mut self, server: usize, origin: usize, need: SyncNeedV1, info: &mut CaseInfo) -> Result<(), Fail> {
+        let actor = self.actor(origin);
+        let model = self.models[server].get(&origin).cloned().unwrap_or_default();
+        let head = model.max;
+        let answers = self.nodes[server].serve(vec![(actor, vec![need.clone()])]).await.map_err(|e| Fail::new("sync-server-answers", e.0))?;
+        // group by version
+        let mut fulls: BTreeMap<u64, Vec<(u64, u64, u64, Vec<Change>)>> = BTreeMap::new();
+        let mut empties: rangemap::RangeInclusiveSet<u64> = Default::default();
+        for a in &answers {
+            ensure!(a.actor_id == actor, "answers-the-requested-actor", "asked about node {origin}, got a changeset of {}", a.actor_id);
+            match &a.changeset {
+                Changeset::Full { version, changes, seqs, last_seq, .. } => {
+                    for c in changes {
+                        ensure!(seqs.contains(&c.seq), "change-inside-changeset-range", "v{}: change seq {} outside {}..={}", version.0, c.seq.0, seqs.start().0, seqs.end().0);
+                        ensure!(c.db_version == *version && c.site_id == actor.to_bytes(), "change-belongs-to-version", "v{}: carries a change of version {} / another site", version.0, c.db_version.0);
+                    }
+                    fulls.entry(version.0).or_default().push((seqs.start().0, seqs.end().0, last_seq.0, changes.clone()));
+                }
+                Changeset::Empty { versions, .. } => {
+                    empties.insert(versions.start().0..=versions.end().0);
+                }
+                other => return Err(Fail::new("answer-kinds", format!("unexpected answer {other:?}"))),
+            }
+        }
+        let (req_versions, req_seqs): (Vec<u64>, Option<Vec<(u64, u64)>>) = match &need {
+            SyncNeedV1::Full { versions } => ((versions.start().0..=versions.end().0).collect(), None),
+            SyncNeedV1::Partial { version, seqs } => (vec![version.0], Some(seqs.iter().map(|r| (r.start().0, r.end().0)).collect())),
+            SyncNeedV1::Empty { .. } => (vec![], None),
+        };
+        for v in fulls.keys() {
+            ensure!(req_versions.contains(v), "answers-only-what-was-asked", "answered v{v} which was not requested ({need:?})");
+        }
+        for r in empties.iter() {
+            for v in *r.start()..=*r.end() {
+                ensure!(req_versions.contains(&v), "answers-only-what-was-asked", "declared v{v} empty which was not requested ({need:?})");
+            }
+        }
+        let mut classes = BTreeSet::new();
+        for v in req_versions {
+            if v == 0 {
+                continue;
+            }
+            if model.undetermined.contains(&v) || model.ambiguous(v) {
+                continue;
+            }
+            let own = server == origin;
+            let held = model.held.contains(&v) || (own && v <= head);
+            let partial = !held && model.partial.contains_key(&v);
+            let got = fulls.get(&v).cloned().unwrap_or_default();
+            let declared_empty = empties.contains(&v);
+            if held {
+                let live = self.live_rows(server, origin, v).await?;
+                if live.is_empty() {
+                    classes.insert("held-no-live-changes");
+                    ensure!(got.is_empty(), "cleared-version-sends-no-changes", "v{v} has no live change on the server but it sent {got:?}");
+                    ensure!(declared_empty, "cleared-version-declared-empty", "v{v} is held without live changes but was not declared empty (answers: {:?})", answers.iter().map(sim::cs_brief).collect::<Vec<_>>());
+                } else {
+                    classes.insert("held-with-live-changes");
+                    ensure!(!declared_empty, "held-version-not-declared-empty", "v{v} has {} live changes but was declared empty", live.len());
+                    let max_seq = live.iter().map(|c| c.seq.0).max().unwrap();
+                    let mut ranges: Vec<(u64, u64)> = got.iter().map(|g| (g.0, g.1)).collect();
+                    ranges.sort();
+                    let mut sent: Vec<Change> = got.iter().flat_map(|g| g.3.clone()).collect();
+                    let key = |c: &Change| (c.seq.0, c.table.to_string(), c.pk.clone(), c.cid.to_string());
+                    sent.sort_by_key(key);
+                    match &req_seqs {
+                        None => {
+                            ensure!(!ranges.is_empty(), "held-version-is-sent", "v{v} is held with {} live changes but nothing was sent", live.len());
+                            ensure!(ranges[0].0 == 0 && ranges.last().unwrap().1 == max_seq, "chunks-tile-0..=last_seq", "v{v}: chunks {ranges:?} do not tile 0..={max_seq}");
+                            for w in ranges.windows(2) {
+                                ensure!(w[1].0 == w[0].1 + 1, "chunks-tile-0..=last_seq", "v{v}: chunks {ranges:?} overlap or leave a hole");
+                            }
+                            for g in &got {
+                                ensure!(g.2 == max_seq, "last-seq-is-largest-live-seq", "v{v}: chunk declares last_seq {} but the largest live seq is {max_seq}", g.2);
+                            }
+                            let mut want = live.clone();
+                            want.sort_by_key(key);
+                            ensure!(sent == want, "carries-exactly-the-live-changes", "v{v}: sent {} changes, {} are live (sent seqs {:?}, live seqs {:?})", sent.len(), want.len(), sent.iter().map(|c| c.seq.0).collect::<Vec<_>>(), want.iter().map(|c| c.seq.0).collect::<Vec<_>>());
+                        }
+                        Some(rs) => {
+                            // every requested range is answered by chunks tiling it, carrying the live changes in it
+                            let mut want: Vec<Change> = live.iter().filter(|c| rs.iter().any(|(s, e)| *s <= c.seq.0 && c.seq.0 <= *e)).cloned().collect();
+                            want.sort_by_key(key);
+                            let mut sent_d = sent.clone();
+                            sent_d.dedup();
+                            ensure!(sent_d == want, "carries-exactly-the-live-changes", "v{v} seqs {rs:?}: sent seqs {:?}, live in range {:?}", sent.iter().map(|c| c.seq.0).collect::<Vec<_>>(), want.iter().map(|c| c.seq.0).collect::<Vec<_>>());
+                            let mut cov = rangemap::RangeInclusiveSet::new();
+                            for (s, e) in &ranges {
+                                cov.insert(*s..=*e);
+                                ensure!(rs.iter().any(|(a, b)| a <= s && e <= b), "partial-answer-inside-request", "v{v}: chunk {s}..={e} outside the requested {rs:?}");
+                            }
+                            for (s, e) in rs {
+                                ensure!(cov.gaps(&(*s..=*e)).next().is_none(), "partial-answer-covers-request", "v{v}: requested {s}..={e}, chunks {ranges:?}");
+                            }
+                        }
+                    }
+                }
+            } else if partial {
+                classes.insert("partially-buffered");
+                ensure!(!declared_empty, "partial-version-never-declared-empty", "v{v} is only partially received (have {:?}) but was declared empty", model.partial.get(&v));
+                let have = model.partial.get(&v).cloned().unwrap_or_default();
+                let buf = self.chunk_buf.get(&(server, origin, v));
+                let mut cov = rangemap::RangeInclusiveSet::new();
+                for g in &got {
+                    cov.insert(g.0..=g.1);
+                    for c in &g.3 {
+                        let k = (c.seq.0, c.table.to_string(), c.pk.clone(), c.cid.to_string());
+                        ensure!(buf.is_some_and(|b| b.get(&k).is_some_and(|x| x.0 == *c)), "partial-answer-is-what-was-buffered", "v{v}: sent change seq {} that the server never received", c.seq.0);
+                    }
+                }
+                let want: rangemap::RangeInclusiveSet<u64> = match &req_seqs {
+                    None => have.clone(),
+                    Some(rs) => {
+                        let mut w = rangemap::RangeInclusiveSet::new();
+                        for (s, e) in rs {
+                            for h in have.overlapping(&(*s..=*e)) {
+                                w.insert((*h.start()).max(*s)..=(*h.end()).min(*e));
+                            }
+                        }
+                        w
+                    }
+                };
+                let c: Vec<(u64, u64)> = cov.iter().map(|r| (*r.start(), *r.end())).collect();
+                let wv: Vec<(u64, u64)> = want.iter().map(|r| (*r.start(), *r.end())).collect();
+                ensure!(c == wv, "partial-answer-is-exactly-the-buffered-ranges", "v{v}: sent ranges {c:?}, buffered (in request) {wv:?}");
+            } else {
+                classes.insert("not-held");
+                ensure!(got.is_empty() && !declared_empty, "silent-about-versions-not-held", "v{v} is not held by the server (needed or beyond its head {head}) but it answered {got:?} empty={declared_empty}");
+            }
+        }
+        for c in &classes {
+            info.class(c);
+        }
+        if classes.len() >= 2 && (classes.contains("partially-buffered") || classes.contains("not-held")) {
+            info.nontrivial = true;
         }
         Ok(())
     }
